@@ -91,7 +91,8 @@ def dpv(p, x):
 class P(Prop):
     ID = "C04"
     MODULE = "C04"
-    THEOREMS = ["C04_end", "C04_hermite", "C04_fdx_flat", "C04_fdx_harmonic", "C04_end_slopes", "C04_segments", "C04_interior_slopes", "C04_count"]
+    THEOREMS = ["C04_end", "C04_hermite", "C04_fdx_flat", "C04_fdx_harmonic", "C04_end_slopes", "C04_segments", "C04_interior_slopes", "C04_count",
+                "C04_coefficient_float", "C04_cubic_deviation", "C04_interpolation_float"]
     KERNELS = ["spline::f_dx", "spline::segment", "spline::f_x0", "spline::f_xn"]
     RULE = ("constrained_spline on 3..12 (thorough ..100) knots with strictly increasing x: monotone, oscillating, zig-zag, plateaued, "
             "collinear, nearly collinear, unevenly spaced (gap ratios up to 2^12), offset up to 2^20, gentle slopes (~1e-8); "
